@@ -3,7 +3,7 @@
    BV.Configure.setup_txdata / pushonly_violation (Instance::setup_environment), BV.Session (StepScript(InterpreterEnv&)).
    The hash functions are parameters of the statements (any functions): the theorems are about which hashes are compared with which
    committed bytes, and the correspondence runs them with the Gallina SHA-256 / RIPEMD-160 of BV.Hashes. *)
-From BV Require Import Base Script Interp Session Tx TxCli Sighash Configure ConfigureProofs VerifySpec VerifyProofs.
+From BV Require Import Base Script Interp Session Tx TxCli Sighash Configure ConfigureProofs VerifySpec VerifyProofs TapTool TceProofs.
 From BV.Gen Require Import Consts Sites.
 Local Open Scope Z_scope.
 
@@ -134,6 +134,21 @@ Theorem C03_witness_script_session_is_one_evaluation : forall low_s tap_tweak_ok
          | (e1, SOk) => finish e1 | (e1, st) => failed_verdict e1 st end).
 Proof. exact witness_script_session. Qed.
 
+(* the whole tapscript session (P2TR script path): the BIP341 commitment rule of C05 decides whether the script runs at all; when it holds the
+   session is ONE evaluation of the revealed script with the leaf hash installed in the execution data, and when it does not the session ends with
+   an error before any operation ran (environment untouched). Control block of any legal size 33+32m, fuel bound explicit. *)
+Theorem C03_tapscript_session_is_commitment_then_one_evaluation : forall low_s tap_tweak_ok sha256 c control program script m stack ed f,
+  (forall x, length (sha256 x) = 32%nat) -> length control = (33 + 32 * m)%nat -> (c_sigver c =? SV_BASE) = false -> script <> [] ->
+  let t0 := tce_new sha256 control program script in
+  let v0 := setup_env c script stack [] ed (Some t0) in
+  let e_run := set_ed (i_e v0) (ed_set_tapleaf (e_ed (i_e v0)) (spec_leaf sha256 control script)) in
+  (S m + (length script + 6) <= f)%nat ->
+  if spec_commit_ok tap_tweak_ok sha256 control program script
+  then ended (Session.dbg_continue low_s tap_tweak_ok sha256 f c v0)
+             (match eval_ref low_s c e_run script with (e1, SOk) => finish e1 | (e1, st) => failed_verdict e1 st end)
+  else exists v1, Session.dbg_continue low_s tap_tweak_ok sha256 f c v0 = (v1, SErr) /\ i_e v1 = i_e v0.
+Proof. exact tapscript_session. Qed.
+
 (* non-vacuity: the start state of every session built by setup_environment for a scriptSig that is not itself P2SH-shaped meets the premises *)
 Example C03_session_premises : forall c script stack succ ed, script <> [] ->
   i_p2sh (setup_env c script stack succ ed None) = false ->
@@ -161,6 +176,7 @@ Print Assumptions C03_legacy_session_is_script_validation.
 Print Assumptions C03_single_script_session_is_one_evaluation.
 Print Assumptions C03_witness_session_never_p2sh.
 Print Assumptions C03_witness_script_session_is_one_evaluation.
+Print Assumptions C03_tapscript_session_is_commitment_then_one_evaluation.
 Print Assumptions C03_control_block_size_bounds.
 Print Assumptions C03_wrong_selection_refused.
 Print Assumptions C03_selection_out_of_range_refused.
